@@ -4,7 +4,7 @@
     Constant / Extract Inductive of our own. *)
 Require Extraction.
 Require Import ExtrOcamlBasic.
-From NX Require Import Frame Pad Records Request Info Stream Reasm Config Handshake.
+From NX Require Import Frame Pad Records Request Info Stream Reasm Config Handshake DummyDev.
 Extraction "model.ml" Frame.frame_create Frame.frame_decode Frame.recv_dispatch
   Frame.hdr_decode Frame.crc16 Crc.crc_spec Pad.data_align
   Records.chan_new Records.dev_new Records.chan_setattr Records.dev_setattr Records.get
@@ -15,4 +15,5 @@ Extraction "model.ml" Frame.frame_create Frame.frame_decode Frame.recv_dispatch
   Stream.stream_decode Stream.frame_stream_encode Stream.stream_data_encode Stream.msfmt_get Stream.dsfmt_get
   Reasm.recv_all Reasm.scan Reasm.read_frame
   Config.step Config.connected Config.run
-  Handshake.connect Handshake.nx_step Handshake.nx0 Handshake.disconnect.
+  Handshake.connect Handshake.nx_step Handshake.nx0 Handshake.disconnect
+  DummyDev.dummy_handle.
